@@ -140,6 +140,30 @@ def _lit_utf8_len(lit):
     return None
 
 
+def _split_at_half(b, op, depth=12):
+    """(split_at call terminator, 0|1) when the string operand is one half of `s0.split_at(i)`"""
+    p = C.op_place(op)
+    seen = set()
+    while p is not None and depth > 0 and p["l"] not in seen:
+        depth -= 1
+        flds = [e for e in p["p"] if e["k"] == "field"]
+        ds = [r for r in b.defs().get(p["l"], []) if r[0] in ("assign", "call")]
+        if len(flds) == 1 and flds[0].get("owner") == "(tuple)" and len(ds) == 1 and ds[0][0] == "call" and \
+                C.callee_name(ds[0][2]) == "std::str::<impl str>::split_at":
+            return ds[0][2], flds[0]["i"]
+        if flds or len(ds) != 1 or ds[0][0] != "assign":
+            return None
+        seen.add(p["l"])
+        rv = ds[0][3]["rv"]
+        if rv["k"] in ("ref", "copyforderef"):
+            p = rv["pl"]
+        elif rv["k"] == "use" and C.op_place(rv["op"]) is not None:
+            p = C.op_place(rv["op"])
+        else:
+            return None
+    return None
+
+
 def starts_with_cut(b, prog, s_id, idx_op):
     """true edges of s.starts_with(p) where idx == len(p), or p == " ".repeat(n) with idx == n"""
     idx_len = len_of(b, idx_op)
@@ -238,7 +262,9 @@ def d_sub_guarded(ctx, s):
             if kv is None:
                 return False
             return {"Le": (v is False and kv >= c - 1), "Gt": (v is True and kv >= c - 1),
-                    "Lt": (v is False and kv >= c), "Ge": (v is True and kv >= c)}.get(op, False)
+                    "Lt": (v is False and kv >= c), "Ge": (v is True and kv >= c),
+                    # unsigned: a != 0 means a >= 1
+                    "Eq": (v is False and kv == 0 and c == 1), "Ne": (v is True and kv == 0 and c == 1)}.get(op, False)
         cut = C.guard_edges(b, s.prog, pred_cmp)
         if cut and C.guarded(b, s.bb, cut):
             return "guarded by a comparison implying a >= %d" % c
@@ -350,8 +376,18 @@ def d_str_index(ctx, s):
         if cut and C.guarded(b, s.bb, cut):
             reasons.append("%s = len(p) under starts_with(p)" % fld)
             continue
-        # s = s0[find(s0, K)..] and idx = len(K)
+        # s = s0.split_at(find(s0, K)).1 and idx = len(K)
         klen = len_of(b, op)
+        if klen and any(d[0] == "const" for d in klen):
+            sp = _split_at_half(b, t["args"][0])
+            if sp is not None and sp[1] == 1:
+                st_ = sp[0]
+                s0_id = ident(b, st_["args"][0])
+                if any(x.kind == "call" and C.callee_name(x.data) == FIND and same(ident(b, x.data["args"][0]), s0_id)
+                       and same(ident(b, x.data["args"][1]), klen) for x in C.trace(b, st_["args"][1])):
+                    reasons.append("string is the second half of split_at(find(_, K)) and %s = len(K)" % fld)
+                    continue
+        # s = s0[find(s0, K)..] and idx = len(K)
         if klen:
             for l in C.trace(b, t["args"][0]):
                 if l.kind == "call" and C.callee_name(l.data) == STR_INDEX:
